@@ -570,7 +570,10 @@ def member_checks(dom, x, q, fail, det_cat=False, moved_ints=()):
         if float(v) != float(e[blk.index(max(blk))]):
           return fail("decode:category-not-argmax", f"deterministic rounding of block {blk} gave {v!r}")
       pos += len(e)
+  dbl_ok = relaxed_sat(dom, [float(v) for v in x], "double")  # the decode does not repair double constraints: they are a hypothesis
   for k in dom["cons"]:
+    if k["var_type"] == "double" and not dbl_ok:
+      continue
     lhs = sum(Fr(a) * F(b) for a, b in zip(k["weights"], q))
     if lhs < F(k["rhs"]) - Fr(1, 10**9) * max(1, abs(F(k["rhs"]))):
       return fail("decode:constraint-violated", f"{k['var_type']} constraint {k['weights']} . p >= {k['rhs']} violated by {list(q)}")
